@@ -1,6 +1,6 @@
 (* T21: the strings that _eval_dont_cares stores denote exactly the reachable leaf vectors (as a set). *)
 Require Import Cirbo.Model.Base Cirbo.Model.Gate Cirbo.Model.Circuit Cirbo.Model.Eval Cirbo.Model.PatternSim.
-Require Import Cirbo.Model.SubcircuitPrims Cirbo.Model.SubcircuitAlg.
+Require Import Cirbo.Model.SubcircuitPrims Cirbo.Model.SubcircuitAlg Cirbo.Model.SubcircuitGlue.
 Require Import Cirbo.Proofs.SubcircuitPrimsFacts Cirbo.Proofs.SubcircuitAlgGenTT Cirbo.Proofs.SubcircuitAlgGenCare3.
 From Coq Require Import Permutation.
 
